@@ -234,16 +234,17 @@ def govUpdate (s : State) (list : List Nat) : State × Res :=
   let maxChange := powerChangeCap * total / 100
   if delPower > 0 && delPower ≥ maxChange then (s, .err "cap") else
   let s1 := { s with proposal := list }
+  -- `UnbondedOracleFromProposal` for each: undelegate everything (staking state only) …
   let r := unbondList.foldl (fun (acc : Option State) o =>
       match acc with
       | none => none
-      | some st =>
-        match stakeUndelegateAll st o.addr o.val with
-        | none => none
-        | some st' => some { st' with oracles := Store.set st'.oracles o.addr { o with online := false } }) (some s1)
+      | some st => stakeUndelegateAll st o.addr o.val) (some s1)
   match r with
   | none => (s, .err "staking")
-  | some s2 => (s2, .ok)
+  | some s2 =>
+    -- … and write the record back with `Online = false` (records are keyed by their own address)
+    ({ s2 with oracles := Store.mapVals (fun o => if !list.contains o.addr && s.proposal.contains o.addr
+                            then { o with online := false } else o) s2.oracles }, .ok)
 
 /-- `BondedOracle` -/
 def bond (s : State) (o b e v amt : Nat) : State × Res :=
@@ -430,35 +431,30 @@ def unslashedCalls (s : State) (maxH : Nat) : List Obj :=
   ((s.calls.filter (fun x => x.nonce ≥ s.curCall + bridgeCallCursorOffset)).takeWhile
     (fun x => evalCmp bridgeCallWindowCmp x.height maxH))
 
-def oracleSetSlashing (s : State) (h : Nat) (snap : List Oracle) (maxH : Nat) : Except String (State × Bool) :=
-  (unslashedSets s maxH).foldl (fun acc x =>
+/-- one slashing loop: for every selected object, call `SlashOracle` for the oracles the body selects (panic if the
+argument is not the oracle address and some oracle of the snapshot is selected), then move the cursor -/
+def slashLoop {β : Type} (xs : List β) (height nonce : β → Nat) (confOf : State → List Conf) (skip : Cmp) (arg : SlashArg)
+    (site : String) (setCur : State → β → State) (h : Nat) (snap : List Oracle) (s : State) : Except String (State × Bool) :=
+  xs.foldl (fun acc x =>
     match acc with
     | .error e => .error e
     | .ok (st, hs) =>
-      let c := called snap oracleSetStartSkip x.height (confExts st.osConf x.nonce)
-      if c && oracleSetSlashArg != .oracleAddress then .error "SlashOracle:MustAccAddressFromBech32(oracleSetSlashing)" else
-      .ok ({ slashPass st h oracleSetStartSkip x.height (confExts st.osConf x.nonce) with curOS := x.nonce }, hs || c))
+      let c := called snap skip (height x) (confExts (confOf st) (nonce x))
+      if c && arg != .oracleAddress then .error site else
+      .ok (setCur (slashPass st h skip (height x) (confExts (confOf st) (nonce x))) x, hs || c))
     (.ok (s, false))
+
+def oracleSetSlashing (s : State) (h : Nat) (snap : List Oracle) (maxH : Nat) : Except String (State × Bool) :=
+  slashLoop (unslashedSets s maxH) (·.height) (·.nonce) (·.osConf) oracleSetStartSkip oracleSetSlashArg
+    "SlashOracle:MustAccAddressFromBech32(oracleSetSlashing)" (fun st x => { st with curOS := x.nonce }) h snap s
 
 def batchSlashing (s : State) (h : Nat) (snap : List Oracle) (maxH : Nat) : Except String (State × Bool) :=
-  (unslashedBatches s maxH).foldl (fun acc x =>
-    match acc with
-    | .error e => .error e
-    | .ok (st, hs) =>
-      let c := called snap batchStartSkip x.height (confExts st.batchConf x.nonce)
-      if c && batchSlashArg != .oracleAddress then .error "SlashOracle:MustAccAddressFromBech32(batchSlashing)" else
-      .ok ({ slashPass st h batchStartSkip x.height (confExts st.batchConf x.nonce) with curBatch := x.height }, hs || c))
-    (.ok (s, false))
+  slashLoop (unslashedBatches s maxH) (·.height) (·.nonce) (·.batchConf) batchStartSkip batchSlashArg
+    "SlashOracle:MustAccAddressFromBech32(batchSlashing)" (fun st x => { st with curBatch := x.height }) h snap s
 
 def bridgeCallSlashing (s : State) (h : Nat) (snap : List Oracle) (maxH : Nat) : Except String (State × Bool) :=
-  (unslashedCalls s maxH).foldl (fun acc x =>
-    match acc with
-    | .error e => .error e
-    | .ok (st, hs) =>
-      let c := called snap bridgeCallStartSkip x.height (confExts st.callConf x.nonce)
-      if c && bridgeCallSlashArg != .oracleAddress then .error "SlashOracle:MustAccAddressFromBech32(bridgeCallSlashing)" else
-      .ok ({ slashPass st h bridgeCallStartSkip x.height (confExts st.callConf x.nonce) with curCall := x.nonce }, hs || c))
-    (.ok (s, false))
+  slashLoop (unslashedCalls s maxH) (·.height) (·.nonce) (·.callConf) bridgeCallStartSkip bridgeCallSlashArg
+    "SlashOracle:MustAccAddressFromBech32(bridgeCallSlashing)" (fun st x => { st with curCall := x.nonce }) h snap s
 
 /-- `slashing` -/
 def slashing (s : State) (h : Nat) : Except String State :=
